@@ -503,6 +503,25 @@ func (f *Frame) evalCall(x ECall, c *evalCtx) Val {
 		return intVal(mk(SInt, "strcmp", f.eval(x.Args[0], c).T, f.eval(x.Args[1], c).T))
 	case "ite":
 		return f.eval(EIte{x.Args[0], x.Args[1], x.Args[2]}, c)
+	case "oldrows":
+		// oldrows("[]T"): every row of the element heap of []T that existed on entry is unchanged
+		lit, ok := x.Args[0].(EStr)
+		if !ok {
+			f.fail("oldrows needs a type in quotes")
+		}
+		t := un.eng.lookupType(lit.V, f.fn)
+		if t == nil {
+			f.fail("oldrows: unknown type %s", lit.V)
+		}
+		sl, ok := t.Underlying().(*types.Slice)
+		if !ok {
+			f.fail("oldrows: %s is not a slice type", lit.V)
+		}
+		hn := un.elemHeap(sl.Elem())
+		srt := ArrSort(SInt, ArrSort(SInt, u.SortOf(sl.Elem())))
+		b := Term{"b!or", SInt}
+		cur, old := un.H(c.cur, hn, srt), un.H(c.old, hn, srt)
+		return boolVal(Forall([]Term{b}, Implies(Le(b, un.H(c.old, "$next", SInt)), Eq(Select(cur, b), Select(old, b))), Select(cur, b)))
 	case "wlocked", "rlocked", "unlocked", "lockstate":
 		lv := f.evalLV(x.Args[0], c)
 		hn, key := un.lockHeap(lv)
